@@ -271,6 +271,32 @@ var rulePublishOnce = &Rule{
 	Run: func(c *Ctx) []Ob {
 		var obs []Ob
 		n := 0
+		// helpers that append to a slice field of one of their (pointer) parameters
+		appendsParam := map[*ssa.Function]map[int]bool{}
+		for _, g := range c.ModFns() {
+			for _, b := range g.Blocks {
+				for _, ins := range b.Instrs {
+					st, ok := ins.(*ssa.Store)
+					if !ok || appendCall(st.Val) == nil {
+						continue
+					}
+					fa, ok := st.Addr.(*ssa.FieldAddr)
+					if !ok {
+						continue
+					}
+					if p, ok := canon(fa.X).(*ssa.Parameter); ok {
+						for j, pp := range g.Params {
+							if pp == p {
+								if appendsParam[g] == nil {
+									appendsParam[g] = map[int]bool{}
+								}
+								appendsParam[g][j] = true
+							}
+						}
+					}
+				}
+			}
+		}
 		for _, f := range c.ModFns() {
 			loops := loopsOf(f)
 			cnt := 0
@@ -332,6 +358,14 @@ var rulePublishOnce = &Rule{
 							case *ssa.Store:
 								if fa, ok := x.Addr.(*ssa.FieldAddr); ok && same[fa.X] && appendCall(x.Val) != nil {
 									appended = true
+								}
+							case *ssa.Call:
+								if g := x.Call.StaticCallee(); g != nil {
+									for j := range appendsParam[g] {
+										if j < len(x.Call.Args) && same[x.Call.Args[j]] {
+											appended = true
+										}
+									}
 								}
 							case *ssa.MapUpdate:
 								if same[x.Value] {
